@@ -158,7 +158,7 @@ Lemma align_go_spec dur : forall l out,
   Forall (fun se => (fst se <= 2)%nat /\ 0 <= ev_duration (snd se)) l ->
   align_go dur l = OK out ->
   Forall2 (fun se e' => a_delay e' == align_target dur (fst se) (snd se) /\
-                        a_len e' = a_len (snd se) /\ a_tag e' = a_tag (snd se) /\
+                        a_len e' = a_len (snd se) /\ a_tag e' = a_tag (snd se) /\ a_id e' = None /\
                         (fst se = align_right -> 0 <= a_delay e')) l out.
 Proof.
   induction l as [|[sp e] l IH]; intros out Hf H; cbn [align_go] in H.
@@ -169,16 +169,16 @@ Proof.
     destruct sp as [|[|[|sp]]]; [| | |lia]; cbn [Nat.eqb] in H |- *.
     + destruct (align_go dur l) as [r'|x] eqn:E; [|discriminate]. inversion H; subst.
       constructor; [|apply IH; [exact Hf'|reflexivity]].
-      cbn [fst snd set_delay a_delay a_len a_tag Nat.eqb]. repeat split; try reflexivity. discriminate.
+      cbn [fst snd set_delay a_delay a_len a_tag a_id Nat.eqb]. repeat split; try reflexivity. discriminate.
     + destruct (align_go dur l) as [r'|x] eqn:E; [|discriminate]. inversion H; subst.
       constructor; [|apply IH; [exact Hf'|reflexivity]].
-      cbn [fst snd set_delay a_delay a_len a_tag Nat.eqb]. repeat split; try reflexivity; [|discriminate].
+      cbn [fst snd set_delay a_delay a_len a_tag a_id Nat.eqb]. repeat split; try reflexivity; [|discriminate].
       rewrite Hc. field.
     + destruct (Qltb (dur - calc_duration [e] + a_delay e) 0) eqn:En; [discriminate|].
       apply Qltb_ge in En.
       destruct (align_go dur l) as [r'|x] eqn:E; [|discriminate]. inversion H; subst.
       constructor; [|apply IH; [exact Hf'|reflexivity]].
-      cbn [fst snd set_delay a_delay a_len a_tag Nat.eqb]. repeat split; try reflexivity; [|intros _; exact En].
+      cbn [fst snd set_delay a_delay a_len a_tag a_id Nat.eqb]. repeat split; try reflexivity; [|intros _; exact En].
       rewrite Hc. ring.
 Qed.
 
@@ -197,7 +197,7 @@ Theorem align_spec l out :
   align l = OK out ->
   let D := calc_duration (map snd l) in
   Forall2 (fun se e' => a_delay e' == align_target D (fst se) (snd se) /\
-                        a_len e' = a_len (snd se) /\ a_tag e' = a_tag (snd se) /\
+                        a_len e' = a_len (snd se) /\ a_tag e' = a_tag (snd se) /\ a_id e' = None /\
                         (fst se = align_right -> 0 <= a_delay e')) l out.
 Proof.
   intros Hd H D. unfold align in H.
